@@ -1,6 +1,7 @@
 (* Pins for C16: restated statements + assumptions. Generated once by tools/mkpins.py, then committed. *)
 Require Import VT.Tac VT.ListN VT.Cell VT.Row VT.Grid VT.Screen VT.Vte VT.Perform VT.Parser VT.RowInv VT.GridInv VT.TextInv VT.ScreenInv.
-Require Import VT.Props.C16.
+Require Import VT.Tac VT.ListN VT.Attrs VT.Cell VT.Row VT.Grid VT.Screen VT.Vte VT.Perform VT.Parser VT.RowInv VT.GridInv VT.TextInv VT.ScreenInv VT.ResizeSpec.
+Require Import VT.Props.C16 VT.Props.C16b.
 Open Scope N_scope.
 Check C16_safe : forall s r c, screen_ok s -> 1 <= r <= MAXDIM -> 1 <= c <= MAXDIM ->
   exists s', screen_set_size s r c = Ok s' /\ screen_ok s' /\
@@ -20,3 +21,115 @@ Print Assumptions C16_callback.
 Check C16_history : forall s r c s', screen_ok s -> 1 <= r <= MAXDIM -> 1 <= c <= MAXDIM ->
   screen_set_size s r c = Ok s' -> sb (g s') = sb (g s) /\ sb_cap (g s') = sb_cap (g s).
 Print Assumptions C16_history.
+Check C16_screen : forall s r c, screen_ok s -> 1 <= r <= MAXDIM -> 1 <= c <= MAXDIM ->
+  exists g1 a1, grid_set_size (g s) r c = Ok g1 /\ grid_set_size (alt s) r c = Ok a1 /\
+    grid_ok g1 /\ grid_ok a1 /\
+    screen_set_size s r c =
+    Ok (mkScreen g1 a1 (pen s) (spen s) (keypad s) (appcur s) (hide s) (altmode s) (paste s) (mmode s) (menc s)) /\
+    screen_ok (mkScreen g1 a1 (pen s) (spen s) (keypad s) (appcur s) (hide s) (altmode s) (paste s) (mmode s) (menc s)).
+Print Assumptions C16_screen.
+Check C16_screen_only_grids : forall s r c s', screen_set_size s r c = Ok s' ->
+  exists g1 a1, grid_set_size (g s) r c = Ok g1 /\ grid_set_size (alt s) r c = Ok a1 /\
+    s' = mkScreen g1 a1 (pen s) (spen s) (keypad s) (appcur s) (hide s) (altmode s) (paste s) (mmode s) (menc s).
+Print Assumptions C16_screen_only_grids.
+Check C16_cell : forall x r c y i j, grid_ok0 x -> 1 <= r <= MAXDIM -> 1 <= c <= MAXDIM ->
+  grid_set_size x r c = Ok y -> i < r -> j < c ->
+  drawing_cell y i j =
+  Some (match drawing_cell x i j with
+        | Some cl => if (j =? c - 1) && cwide cl then mkCell [] false false (cattrs cl) else cl
+        | None => cell_new
+        end).
+Print Assumptions C16_cell.
+Check C16_cell_outside : forall x r c y i j, grid_ok0 x -> 1 <= r <= MAXDIM -> 1 <= c <= MAXDIM ->
+  grid_set_size x r c = Ok y -> r <= i \/ c <= j -> drawing_cell y i j = None.
+Print Assumptions C16_cell_outside.
+Check C16_cell_intersection : forall x r c y i j, grid_ok x -> 1 <= r -> 1 <= c ->
+  grid_set_size x r c = Ok y -> i < r -> j < c -> i < grows x -> j < gcols x ->
+  exists cl, drawing_cell x i j = Some cl /\
+    drawing_cell y i j = Some (if (j =? c - 1) && cwide cl then mkCell [] false false (cattrs cl) else cl).
+Print Assumptions C16_cell_intersection.
+Check C16_cell_exposed : forall x r c y i j, grid_ok x -> 1 <= r -> 1 <= c ->
+  grid_set_size x r c = Ok y -> i < r -> j < c -> grows x <= i \/ gcols x <= j ->
+  drawing_cell y i j = Some cell_new.
+Print Assumptions C16_cell_exposed.
+Check C16_cell_unallocated : forall x r c y i j, 1 <= grows x -> live x = [] -> 1 <= r -> 1 <= c ->
+  grid_set_size x r c = Ok y -> i < r -> j < c -> drawing_cell y i j = Some cell_new.
+Print Assumptions C16_cell_unallocated.
+Check C16_cell_kept : forall x r c y i j, grid_ok x -> 1 <= r -> 1 <= c ->
+  grid_set_size x r c = Ok y -> i < r -> j < c -> i < grows x -> j < gcols x ->
+  j + 1 < c \/ gcols x <= c -> drawing_cell y i j = drawing_cell x i j.
+Print Assumptions C16_cell_kept.
+Check C16_cell_cut : forall x r c y i cl, grid_ok x -> 1 <= r -> 1 <= c ->
+  grid_set_size x r c = Ok y -> i < r -> i < grows x ->
+  drawing_cell x i (c - 1) = Some cl -> cwide cl = true ->
+  c < gcols x /\
+  (exists d, drawing_cell x i c = Some d /\ ccont d = true) /\
+  drawing_cell y i (c - 1) = Some (mkCell [] false false (cattrs cl)).
+Print Assumptions C16_cell_cut.
+Check C16_cont_keeps_partner : forall x r c y i j cl, grid_ok x -> 1 <= r -> 1 <= c ->
+  grid_set_size x r c = Ok y -> i < r -> j < c -> i < grows x ->
+  drawing_cell x i j = Some cl -> ccont cl = true ->
+  0 < j /\ drawing_cell y i j = Some cl /\
+  exists w, cwide w = true /\ drawing_cell x i (j - 1) = Some w /\ drawing_cell y i (j - 1) = Some w.
+Print Assumptions C16_cont_keeps_partner.
+Check C16_unwrapped : forall x r c y, grid_ok0 x -> 1 <= r <= MAXDIM -> 1 <= c <= MAXDIM ->
+  grid_set_size x r c = Ok y -> Forall (fun rw => wrapped rw = false) (live y).
+Print Assumptions C16_unwrapped.
+Check C16_clamps_exact : forall x r c y, grid_ok0 x -> 1 <= r <= MAXDIM -> 1 <= c <= MAXDIM ->
+  grid_set_size x r c = Ok y ->
+  let b1 := if bot x =? grows x - 1 then r - 1 else bot x in
+  let b2 := if r <=? b1 then r - 1 else b1 in
+  grows y = r /\ gcols y = c /\
+  prow y = N.min (prow x) (r - 1) /\ pcol y = N.min (pcol x) (c - 1) /\
+  sprow y = N.min (sprow x) (r - 1) /\ spcol y = N.min (spcol x) (c - 1) /\
+  origin y = origin x /\ sorigin y = sorigin x /\
+  bot y = b2 /\ top y = (if b2 <=? top x then 0 else top x).
+Print Assumptions C16_clamps_exact.
+Check C16_region_cases : forall x r c y, grid_ok0 x -> 1 <= r <= MAXDIM -> 1 <= c <= MAXDIM ->
+  grid_set_size x r c = Ok y ->
+  (bot x = grows x - 1 /\ top x < r - 1 /\ top y = top x /\ bot y = r - 1) \/
+  (bot x <> grows x - 1 /\ bot x < r /\ top y = top x /\ bot y = bot x) \/
+  (bot x <> grows x - 1 /\ r <= bot x /\ top x < r - 1 /\ top y = top x /\ bot y = r - 1) \/
+  (r - 1 <= top x /\ (r <= bot x \/ bot x = grows x - 1) /\ top y = 0 /\ bot y = r - 1).
+Print Assumptions C16_region_cases.
+Check C16_region_full_stays_full : forall x r c y, grid_ok0 x -> 1 <= r <= MAXDIM -> 1 <= c <= MAXDIM ->
+  grid_set_size x r c = Ok y -> top x = 0 -> bot x = grows x - 1 -> top y = 0 /\ bot y = r - 1.
+Print Assumptions C16_region_full_stays_full.
+Check C16_scrollback_untouched : forall x r c y, grid_set_size x r c = Ok y ->
+  sb y = sb x /\ sb_off y = sb_off x /\ sb_cap y = sb_cap x.
+Print Assumptions C16_scrollback_untouched.
+Check C16_callback_exact : forall rz s sub1 rest ign,
+  perform rz s (ACsi ((8 :: sub1) :: rest) [] ign 116) =
+  let r := match rest with (x :: _) :: _ => x | _ => grows (cur s) end in
+  let c := match rest with _ :: (x :: _) :: _ => x | _ => gcols (cur s) end in
+  if rz && (1 <=? r) && (r <=? 512) && (1 <=? c) && (c <=? 512)
+  then do s1 <- screen_set_size s r c; Ok (s1, [EResize r c])
+  else Ok (s, [EResize r c]).
+Print Assumptions C16_callback_exact.
+Check C16_callback_iff : forall s sub1 rest ign s' evs, screen_ok s ->
+  let r := req_rows s rest in let c := req_cols s rest in
+  perform true s (ACsi ((8 :: sub1) :: rest) [] ign 116) = Ok (s', evs) ->
+  evs = [EResize r c] /\
+  (((1 <= r <= 512 /\ 1 <= c <= 512) /\ screen_set_size s r c = Ok s') \/
+   (~ (1 <= r <= 512 /\ 1 <= c <= 512) /\ s' = s)).
+Print Assumptions C16_callback_iff.
+Check C16_callback_resizes : forall s sub1 rest ign, screen_ok s ->
+  let r := req_rows s rest in let c := req_cols s rest in
+  1 <= r <= 512 /\ 1 <= c <= 512 ->
+  exists s1, screen_set_size s r c = Ok s1 /\ screen_ok s1 /\
+             perform true s (ACsi ((8 :: sub1) :: rest) [] ign 116) = Ok (s1, [EResize r c]).
+Print Assumptions C16_callback_resizes.
+Check C16_callback_out_of_policy : forall s sub1 rest ign,
+  let r := req_rows s rest in let c := req_cols s rest in
+  ~ (1 <= r <= 512 /\ 1 <= c <= 512) ->
+  perform true s (ACsi ((8 :: sub1) :: rest) [] ign 116) = Ok (s, [EResize r c]).
+Print Assumptions C16_callback_out_of_policy.
+Check C16_callback_not_resizing : forall s sub1 rest ign,
+  perform false s (ACsi ((8 :: sub1) :: rest) [] ign 116) = Ok (s, [EResize (req_rows s rest) (req_cols s rest)]).
+Print Assumptions C16_callback_not_resizing.
+Check C16_window_op_other : forall rz s op sub1 rest ign, op <> 8 ->
+  perform rz s (ACsi ((op :: sub1) :: rest) [] ign 116) = Ok (s, [EUnhCsi None None ((op :: sub1) :: rest) 116]).
+Print Assumptions C16_window_op_other.
+Check C16_screen_current_grid : forall s r c s', screen_set_size s r c = Ok s' ->
+  altmode s' = altmode s /\ grid_set_size (cur s) r c = Ok (cur s').
+Print Assumptions C16_screen_current_grid.
